@@ -40,6 +40,9 @@
     line boundary; never more than is replayable; rewind_line is   spec_findReplay_bounded,
     a rewind by the bytes found                                    spec_rewindLine_is_rewind
   copy / move between two buffers                                  pair_history_refines_fifo
+  the OUT-PARAMETER ndropped is SET on every path: a call that     ndropped_set_on_every_path,
+    stored nothing (zero length, nothing available, refused)       ndropped_set_copy_move,
+    reports 0 dropped, never a stale value (Cbuf/OutParam.lean)    refused_calls_set_ndropped
   EVERY function declared in cbuf.h is covered by the model        header_covered, header_coverage_witness
   per-buffer mutex: any concurrent history = the sequential        concurrent_history_linearizable
     history of its calls in lock order (answers and final state),    (Cbuf/Lin.lean: exclusive,
@@ -84,6 +87,7 @@ import PdshVerif.Cbuf.IntBounds
 import PdshVerif.Cbuf.IntExprs
 import PdshVerif.Cbuf.SizeMeta
 import PdshVerif.Cbuf.LockOrder
+import PdshVerif.Cbuf.OutParam
 
 namespace PdshVerif.C13
 open PdshVerif.Cbuf
@@ -634,6 +638,37 @@ example :
           .replay 2, .base (.read 3)]
         let _ ← acceptSR (absR c) (traceMR c ops doublingPolicy)
         some (decide ((runMR c ops doublingPolicy).2.size ≠ (runMR c ops).2.size))) = some true := by decide
+
+/-- OUT-PARAMETER on every path (cbuf.h: "Sets [ndropped] (if not NULL) to the number of bytes
+    overwritten"): in every reachable state, under every admissible growth policy, a call of ANY
+    operation that stored nothing (answer <= 0: zero length, nothing available, refused) reports a
+    drop count of 0 -- not what an earlier call left in the caller's variable. -/
+theorem ndropped_set_on_every_path (mn mx : Int) (sm : Nat) (hsm : 0 < sm) (c : Cbuf)
+    (hc : create mn mx sm = some c) (ops : List Op) (op : Op) (pol : Policy := chunkPolicy) [Admissible pol]
+    (hr : (stepM (runM c ops pol).2 op pol).1.ret ≤ 0) :
+    (stepM (runM c ops pol).2 op pol).1.ndropped = 0 :=
+  stepM_nothing_stored (run_refines (inv_create hsm hc).1 ops pol).2 op pol hr
+
+/-- the same for the buffer-to-buffer calls (destination in any state satisfying the invariant) -/
+theorem ndropped_set_copy_move {src dst : Cbuf} (hs : Inv src) (hd : Inv dst) (len : Int)
+    (pol : Policy := chunkPolicy) [Admissible pol] :
+    ((copy src dst len pol).1 ≤ 0 → (copy src dst len pol).2.1 = 0) ∧
+    ((move src dst len pol).1 ≤ 0 → (move src dst len pol).2.1 = 0) :=
+  ⟨fun h => Spec.copy_nothing_stored (copy_refines (src := src) hd len pol).1 h,
+   fun h => Spec.move_nothing_stored (move_refines hs hd len pol).1 h⟩
+
+/-- calls refused at the entry point (EINVAL: NULL source, negative length, invalid descriptor,
+    src == dst): answer -1, out-parameter 0, buffer untouched; the spec step is the same -/
+theorem refused_calls_set_ndropped (c : Cbuf) (k : Refusal) :
+    stepSRefused (absR c) k = ((stepMRefused c k).1, absR (stepMRefused c k).2) ∧
+    (stepMRefused c k).1.ndropped = 0 ∧ (stepMRefused c k).2 = c := refused_refines c k
+
+/-- non-vacuity: the write that overflows reports 1, the zero-length write behind it 0 -/
+example :
+    (do let c ← create 2 2 1
+        let s1 := stepM c (.write [1, 2, 3])
+        let s2 := stepM s1.2 (.write [])
+        some (s1.1.ndropped, s2.1.ret, s2.1.ndropped)) = some (1, 0, 0) := by decide
 
 /-- non-vacuity: a concrete history with growth, wrap-around and a line read is accepted -/
 example :
